@@ -234,6 +234,797 @@ class Recorder:
         return dobs[0][2], dens[0][2]
 
 
+# ----------------------------------------------------------------------------
+# stored representations and object histories
+#
+# The property quantifies over VALUES (forecasts, observations, samples, thresholds); how the
+# caller holds them - dtype, byte order, memory layout, container, pandas index - and which
+# calls were made before on the same objects or on the module are not part of it.  The classes
+# below hold the same values another way / take caller-owned objects through sequences of
+# calls and assert the clauses of the property (never more) on the values held.
+
+INDEX_KINDS = ["default", "dates", "dates-tz", "dates-s", "text", "shuffled", "duplicates", "float"]
+
+CAST_DTYPES = {"float32": np.float32, "float16": np.float16, "longdouble": np.longdouble,
+               "bigendian": ">f8", "bigendian-f4": ">f4", "int64": np.int64, "int32": np.int32,
+               "int16": np.int16, "bool": np.bool_, "object": object}
+
+VEC_KINDS = (["strided", "reversed", "column-C", "column-F", "readonly", "offset", "masked", "list", "tuple",
+              "list-np"] + list(CAST_DTYPES) + ["series:" + k for k in INDEX_KINDS])
+# 2-D: kinds whose first axis is the slowest-varying one in memory ...
+MAT_KINDS_C = (["wide-slice", "rows-strided", "reversed", "reversed-rows", "reversed-cols", "readonly", "offset",
+                "masked", "nested-list", "tuple", "list-of-arrays"] + list(CAST_DTYPES))
+# ... and kinds for which it is not (Fortran order, transposed views, DataFrames)
+MAT_KINDS_F = ["fortran", "transposed-view", "fortran-slice", "fortran-float32", "fortran-readonly"] + \
+              ["dataframe:" + k for k in INDEX_KINDS]
+
+
+def make_index(rng, kind, n):
+    import pandas as pd
+    if kind == "dates":
+        return pd.date_range("2001-01-01", periods=n, freq="D")[::-1]
+    if kind == "dates-tz":
+        return pd.date_range("2001-03-20", periods=n, freq="h", tz="Australia/Sydney")
+    if kind == "dates-s":
+        return pd.date_range("1999-12-31", periods=n, freq="MS").as_unit("s")
+    if kind == "text":
+        return pd.Index([f"s{(5 * i + 2) % (n + 3)}" for i in range(n)])
+    if kind == "shuffled":
+        ix = list(range(n))
+        rng.shuffle(ix)
+        return pd.Index(ix)
+    if kind == "duplicates":
+        return pd.Index([i // 2 for i in range(n)] if rng.random() < 0.5 else [0] * n)
+    if kind == "float":
+        return pd.Index([0.5 * i - 1.0 for i in range(n)])
+    return None
+
+
+def _cast(a, kind):
+    """(array of dtype `kind`, float64 values it holds) or None when the dtype cannot hold finite values"""
+    if kind in ("int64", "int32", "int16", "bool") and not bool(np.all(np.abs(a) < 3e4)):
+        return None
+    with np.errstate(all="ignore"):
+        obj = a.astype(CAST_DTYPES[kind])
+        held = np.array(obj, dtype=np.float64)
+    if not bool(np.all(np.isfinite(held))):
+        return None
+    return obj, held
+
+
+def vec_repr(rng, vals, kind):
+    """the finite float64 vector `vals` held another way: (object, list of the values held) or None"""
+    import pandas as pd
+    a = np.array(vals, dtype=np.float64)
+    n = len(a)
+    same = [float(v) for v in a]
+    if kind in CAST_DTYPES:
+        r = _cast(a, kind)
+        return None if r is None else (r[0], [float(v) for v in r[1]])
+    if kind == "strided":
+        k = rng.choice([2, 3, 7])
+        big = np.full(n * k, rng.choice([1e300, -7.0, 0.5]))
+        off = rng.randrange(k)
+        big[off::k] = a
+        return big[off::k], same
+    if kind == "reversed":
+        return np.ascontiguousarray(a[::-1])[::-1], same
+    if kind in ("column-C", "column-F"):
+        m = np.full((n, 3), rng.choice([-1e300, 3.0, 0.25]), order="C" if kind == "column-C" else "F")
+        j = rng.randrange(3)
+        m[:, j] = a
+        return m[:, j], same
+    if kind == "offset":
+        big = np.full(n + 5, -3.0)
+        big[2:2 + n] = a
+        return big[2:2 + n], same
+    if kind == "readonly":
+        a.setflags(write=False)
+        return a, same
+    if kind == "masked":
+        return np.ma.array(a), same
+    if kind == "list":
+        return same, same
+    if kind == "tuple":
+        return tuple(same), same
+    if kind == "list-np":
+        return list(a), same
+    if kind.startswith("series:"):
+        return pd.Series(a, index=make_index(rng, kind[7:], n), name=rng.choice([None, "q", 0])), same
+    raise KeyError(kind)
+
+
+def mat_repr(rng, rows, kind):
+    """the finite n x p float64 table `rows` held another way: (object, rows held) or None"""
+    import pandas as pd
+    m = np.array(rows, dtype=np.float64)
+    n, p = m.shape
+    same = [[float(v) for v in r] for r in m]
+    if kind in CAST_DTYPES:
+        r = _cast(m, kind)
+        return None if r is None else (r[0], [[float(v) for v in row] for row in r[1]])
+    if kind == "wide-slice":
+        w = np.full((n, p + 2), rng.choice([1e300, -2.0]))
+        w[:, 1:p + 1] = m
+        return w[:, 1:p + 1], same
+    if kind == "rows-strided":
+        w = np.full((2 * n, p), rng.choice([-5.0, 1e300]))
+        w[::2] = m
+        return w[::2], same
+    if kind == "reversed":
+        return np.ascontiguousarray(m[::-1, ::-1])[::-1, ::-1], same
+    if kind == "reversed-rows":
+        return np.ascontiguousarray(m[::-1])[::-1], same
+    if kind == "reversed-cols":
+        return np.ascontiguousarray(m[:, ::-1])[:, ::-1], same
+    if kind == "offset":
+        w = np.full((n + 3, p), 9.0)
+        w[1:1 + n] = m
+        return w[1:1 + n], same
+    if kind == "readonly":
+        m.setflags(write=False)
+        return m, same
+    if kind == "masked":
+        return np.ma.array(m), same
+    if kind == "nested-list":
+        return same, same
+    if kind == "tuple":
+        return tuple(tuple(r) for r in same), same
+    if kind == "list-of-arrays":
+        return [np.array(r) for r in same], same
+    if kind == "fortran":
+        return np.asfortranarray(m), same
+    if kind == "transposed-view":
+        return np.ascontiguousarray(m.T).T, same
+    if kind == "fortran-slice":
+        w = np.full((n + 2, p + 1), -4.0, order="F")
+        w[1:1 + n, :p] = m
+        return w[1:1 + n, :p], same
+    if kind == "fortran-float32":
+        r = _cast(m, "float32")
+        return None if r is None else (np.asfortranarray(r[0]), [[float(v) for v in row] for row in r[1]])
+    if kind == "fortran-readonly":
+        f = np.asfortranarray(m)
+        f.setflags(write=False)
+        return f, same
+    if kind.startswith("dataframe:"):
+        return pd.DataFrame(np.asfortranarray(m), index=make_index(rng, kind[10:], n),
+                            columns=[f"m{j}" for j in range(p)]), same
+    raise KeyError(kind)
+
+
+def scalar_repr(rng, v):
+    """the tolerance / plotting constant / threshold `v` as another scalar object holding the same
+    binary64 value (numpy.float32 scalars are NOT in this class: see notes, float32 threshold)"""
+    kind = rng.choice(["float", "np.float64", "0-d", "int"])
+    if kind == "int" and float(v) == int(v):
+        return int(v), "int"
+    if kind == "np.float64":
+        return np.float64(v), kind
+    if kind == "0-d":
+        return np.array(float(v)), "0-d array"
+    return float(v), "float"
+
+
+def d_exact(obs, sim):
+    """The score from the property's definition: (Pearson correlation of the observation ranks with
+    the Weigel-Mason forecast ranks + 1) / 2.  None when it is not determined by the property: tied
+    observations / tied single-member forecasts (argsort tie-breaking) or all forecasts tied (0/0)."""
+    n, m = len(obs), len(sim[0])
+    if len(set(obs)) < n:
+        return None
+    if m == 1:
+        col = [r[0] for r in sim]
+        if len(set(col)) < n:
+            return None
+        sc = sorted(col)
+        fr = [Fr(sc.index(v)) for v in col]
+    else:
+        _, fr = wm_ranks(sim)
+    so = sorted(obs)
+    orr = [Fr(so.index(v)) for v in obs]
+    mo, mf = sum(orr) / n, sum(fr) / n
+    sxy = sum((a - mo) * (b - mf) for a, b in zip(orr, fr))
+    sxx = sum((a - mo) ** 2 for a in orr)
+    syy = sum((b - mf) ** 2 for b in fr)
+    if sxx == 0 or syy == 0:
+        return None
+    return (float(sxy) / math.sqrt(float(sxx * syy)) + 1.0) / 2.0
+
+
+class PitLadder:
+    """PIT as a function of the number of members below the observation, pooled over calls with the
+    same ensemble size and options: strictly increasing (equal counts -> equal values)."""
+
+    def __init__(self):
+        self.seen = {}
+
+    def add(self, m, random, cst, count, p):
+        """None, or a text when (count, p) contradicts an earlier pair"""
+        d = self.seen.setdefault((m, bool(random), min(0.5, float(cst)) if random else None), {})
+        for c2, p2 in d.items():
+            if (c2 < count and not p2 < p) or (c2 > count and not p2 > p) or \
+                    (c2 == count and abs(p2 - p) > 1e-12):
+                return (f"{count} members below the observation -> PIT {p!r}, but {c2} members below -> "
+                        f"PIT {p2!r} in an earlier call ({m} members, random={random})")
+        d.setdefault(count, p)
+        return None
+
+
+def pit_clauses(obs, ens, censor, random, cst, out, ladder):
+    """The clauses of the property on one result (pits, flags) of metrics.pit for the finite values
+    `obs` / `ens`: (key suffix, text) of the first clause that fails, or None."""
+    pits, sudo = out
+    n, m = len(obs), len(ens[0])
+    if len(pits) != n or len(sudo) != n:
+        return "shape", f"{len(pits)} PIT values / {len(sudo)} flags for {n} valid forecasts"
+    for i in range(n):
+        p = pits[i]
+        if not (0.0 <= p <= 1.0):
+            return "out-of-range", (f"PIT={p!r} not in [0,1] (random={random}, obs={obs[i]}, members {ens[i]})")
+        want = (obs[i] <= censor) and any(v <= censor for v in ens[i])
+        if bool(sudo[i]) != want:
+            return "pseudo-flag", (f"pseudo flag={bool(sudo[i])} but obs={obs[i]} and members {ens[i]} "
+                                   f"with censor={censor}")
+    if float(cst) > 0.5:
+        return None
+    for i in range(n):
+        if any(v == obs[i] for v in ens[i]):
+            continue
+        msg = ladder.add(m, random, cst, sum(v < obs[i] for v in ens[i]), pits[i])
+        if msg:
+            return "not-increasing-in-count", msg
+    return None
+
+
+def representation_and_history_checks(ctx, metrics, c_hydrodiy_stat, fail, gen_unit_sample):
+    """Section 6 of the check (see the comment above INDEX_KINDS)."""
+    rng = ctx.rng
+    TOLERATED = (TypeError, AttributeError, ValueError, IndexError, KeyError)
+    notes = ctx.notes
+
+    def note(name, example):
+        d = notes.setdefault(name, {"count": 0, "first": example})
+        d["count"] += 1
+
+    def is_ndarray(x):
+        return type(x) is np.ndarray
+
+    def quiet(f, *a, **k):
+        # numpy.random.uniform (the jitter of pit) is drawn from a seeded stream: the run is reproducible
+        with Recorder(rng.randrange(2 ** 31)), np.errstate(all="ignore"):
+            return f(*a, **k)
+
+    def finite_unit(vals):
+        return all(0.0 < v < 1.0 for v in vals)
+
+    # --------------------------------------------------------------
+    # 6.1 dscore: representations
+    def judge_dscore(d, obs, sim):
+        """(key suffix, text) or None: the clauses on the score `d` of the values obs / sim"""
+        if len(sim[0]) > 1 and len(set(wm_ranks(sim)[1])) == 1:
+            return None                      # all forecasts tied: 0/0
+        want = d_exact(obs, sim)
+        if not (0.0 <= d <= 1.0):
+            return "out-of-range", f"dscore={d!r} not in [0,1]"
+        if want is not None and not abs(d - want) <= 1e-9:
+            return "not-the-rank-correlation", (f"dscore={d!r}, but (correlation of the observation ranks with the "
+                                                f"Weigel-Mason forecast ranks + 1)/2 = {want!r}")
+        return None
+
+    def gen_dscore_values(n, m):
+        if m == 1 and rng.random() < 0.6:
+            sim = [[k * 0.5] for k in rng.sample(range(-50, 50), n)]
+        else:
+            sim, _ = gen_ensembles(rng, n, m)
+        if rng.random() < 0.15:
+            obs = [rng.randint(0, max(1, n // 2)) * 0.5 for _ in range(n)]
+        else:
+            obs = [k * 0.25 for k in rng.sample(range(-60, 60), n)]
+        return obs, sim
+
+    for it in range(ctx.scale(160, 1600)):
+        n = rng.choice([2, 3, 4, 5, rng.randint(2, 8)])
+        m = rng.choice([1, 2, 3, rng.randint(1, 6)])
+        obs, sim = gen_dscore_values(n, m)
+        eps = rng.choice([1e-6, 1e-6, 1e-8, 1e-4])
+        ko = rng.choice(VEC_KINDS)
+        ks = rng.choice(MAT_KINDS_C + MAT_KINDS_C + MAT_KINDS_F)
+        ro, rs = vec_repr(rng, obs, ko), mat_repr(rng, sim, ks)
+        if ro is None or rs is None:
+            continue
+        (oobj, oheld), (sobj, sheld) = ro, rs
+        if not separated([v for r in sheld for v in r], 10 * max(eps, CMP_TOL)):
+            continue
+        eobj, ekind = scalar_repr(rng, eps)
+        flike = ks in MAT_KINDS_F and n > 1 and m > 1
+        replay = {"call": "metrics.dscore", "obs": oheld, "sim": sheld, "eps": eps, "obs_held_as": ko,
+                  "sim_held_as": ks, "eps_held_as": ekind, "input_class": "stored representation"}
+        cm.mark(replay)
+        ctx.count(("repr-dscore", ko.split(":")[0], ks.split(":")[0], min(m, 2)))
+        try:
+            d = float(quiet(metrics.dscore, oobj, sobj, eps=eobj))
+        except TOLERATED as e:
+            if flike and isinstance(e, ValueError):
+                # forecasts whose first axis is not the slowest-varying one in memory: the code under
+                # test hands `astype(float64)` (which keeps the layout) to a kernel wrapper that wants
+                # C order and raises.  Reported as a defect of the pinned tree; a RETURNED score is
+                # judged like any other.
+                note("dscore_raises_on_forecasts_not_in_C_order", dict(replay, error=str(e)[:120]))
+            elif is_ndarray(oobj) and is_ndarray(sobj):
+                fail(None, "C10/dscore/valid-input-rejected",
+                     f"dscore raised {type(e).__name__}: {str(e)[:120]} with obs held as {ko} and the forecasts "
+                     f"as {ks} ({n} forecasts x {m} members)", replay)
+            else:
+                note("dscore_raises_on_containers", dict(replay, error=f"{type(e).__name__}: {str(e)[:120]}"))
+            continue
+        bad = judge_dscore(d, oheld, sheld)
+        if bad:
+            fail(None, "C10/dscore/depends-on-stored-representation",
+                 f"{bad[1]} with obs held as {ko} and the forecasts as {ks} ({bad[0]})", dict(replay, D=d))
+
+    # --------------------------------------------------------------
+    # 6.2 pit / alpha: representations
+    def gen_pit_values(n, m, censor):
+        step = rng.choice([1.0, 0.5, 0.25])
+        obs, ens = [], []
+        for i in range(n):
+            kind = rng.choice(["mixed", "mixed", "censored", "allbelow", "allabove", "tiedobs"])
+            o = censor + rng.randint(-3, 6) * step
+            if kind == "censored":
+                o = censor + rng.choice([0, 0, -1, -2]) * step
+                row = [censor + rng.choice([0, 0, -1, 1, 2, 3]) * step for _ in range(m)]
+            elif kind == "allbelow":
+                row = [o - rng.randint(1, 5) * step for _ in range(m)]
+            elif kind == "allabove":
+                row = [o + rng.randint(1, 5) * step for _ in range(m)]
+            elif kind == "tiedobs":
+                row = [o + rng.choice([0, 0, -1, 1]) * step for _ in range(m)]
+            else:
+                row = [censor + rng.randint(-4, 8) * step for _ in range(m)]
+            obs.append(o)
+            ens.append(row)
+        return obs, ens
+
+    ladder = PitLadder()
+    for it in range(ctx.scale(200, 2000)):
+        n = rng.choice([1, 2, 3, rng.randint(1, 8)])
+        m = rng.choice([1, 2, 3, 11, rng.randint(1, 24)])
+        random = rng.random() < 0.5
+        cst = rng.choice([0.3, 0.0, 0.5, 0.25, round(rng.uniform(0, 0.5), 3)])
+        censor = rng.choice([0.0, 0.0, 1.0, -2.5, 10.0, 0.5])
+        obs, ens = gen_pit_values(n, m, censor)
+        ko = rng.choice(VEC_KINDS + (["column-vector"] if n > 1 else ["scalar", "np-scalar", "0-d"]))
+        ke = rng.choice(MAT_KINDS_C + MAT_KINDS_F + (["flat-list", "flat-array"] if n == 1 else []))
+        if ko == "column-vector":
+            ro = (np.array(obs).reshape(n, 1), list(obs))
+        elif ko == "scalar":
+            ro = (float(obs[0]), list(obs))
+        elif ko == "np-scalar":
+            ro = (np.float64(obs[0]), list(obs))
+        elif ko == "0-d":
+            ro = (np.array(obs[0]), list(obs))
+        else:
+            ro = vec_repr(rng, obs, ko)
+        if ke == "flat-list":
+            re_ = (list(ens[0]), [list(ens[0])])
+        elif ke == "flat-array":
+            re_ = (np.array(ens[0]), [list(ens[0])])
+        else:
+            re_ = mat_repr(rng, ens, ke)
+        if ro is None or re_ is None:
+            continue
+        (oobj, oheld), (eobj, eheld) = ro, re_
+        cobj, ckind = scalar_repr(rng, censor)
+        tobj, tkind = scalar_repr(rng, cst)
+        use_alpha = rng.random() < 0.2
+        replay = {"call": "metrics.alpha" if use_alpha else "metrics.pit", "obs": oheld, "ens": eheld,
+                  "obs_held_as": ko, "ens_held_as": ke, "input_class": "stored representation"}
+        ctx.count(("repr-alpha" if use_alpha else "repr-pit", ko.split(":")[0], ke.split(":")[0], random))
+        both_nd = is_ndarray(oobj) and is_ndarray(eobj)
+        if use_alpha:
+            typ = rng.choice(["CV", "KS", "AD"])
+            replay["type"] = typ
+            cm.mark(replay)
+            try:
+                st, pv, sudo = quiet(metrics.alpha, oobj, eobj, type=typ)
+                pv, sudo = float(pv), [bool(b) for b in sudo]
+            except TOLERATED as e:
+                if both_nd:
+                    fail(None, f"C10/alpha/{typ}-raised", f"alpha(type={typ}) raised {type(e).__name__}: "
+                         f"{str(e)[:120]} with obs held as {ko} and the ensembles as {ke}", replay)
+                else:
+                    note("alpha_raises_on_containers", dict(replay, error=f"{type(e).__name__}: {str(e)[:120]}"))
+                continue
+            replay.update(pvalue=pv, flags=sudo)
+            if not (0.0 <= pv <= 1.0):
+                fail(None, f"C10/alpha/{typ}-pvalue-out-of-range",
+                     f"alpha(type={typ}) p-value {pv!r} with obs held as {ko} and the ensembles as {ke}", replay)
+            want = [(o <= 0.0) and any(v <= 0.0 for v in row) for o, row in zip(oheld, eheld)]
+            if sudo != want:
+                fail(None, "C10/alpha/pseudo-flag",
+                     f"alpha returns the pseudo flags {sudo}, but the observation and at least one member are at "
+                     f"or below 0 for {want} (obs held as {ko}, ensembles as {ke})", replay)
+            continue
+        replay.update(random=random, cst=cst, censor=censor, cst_held_as=tkind, censor_held_as=ckind)
+        cm.mark(replay)
+        try:
+            pits, sudo = quiet(metrics.pit, oobj, eobj, random=random, cst=tobj, censor=cobj)
+            out = ([float(v) for v in pits], [bool(b) for b in sudo])
+        except TOLERATED as e:
+            if both_nd:
+                fail(None, "C10/pit/valid-input-rejected",
+                     f"pit raised {type(e).__name__}: {str(e)[:120]} with obs held as {ko} and the ensembles "
+                     f"as {ke} (cst as {tkind}, censor as {ckind})", replay)
+            else:
+                note("pit_raises_on_containers", dict(replay, error=f"{type(e).__name__}: {str(e)[:120]}"))
+            continue
+        replay["result"] = out
+        bad = pit_clauses(oheld, eheld, censor, random, cst, out, ladder)
+        if bad:
+            fail(None, "C10/pit/" + bad[0], f"{bad[1]} - obs held as {ko}, ensembles as {ke}, cst as {tkind}, "
+                 f"censor as {ckind}", replay)
+
+    # a threshold given as a numpy.float32 scalar: `censor + 1e-10` is then rounded to binary32
+    # (NEP 50) and equals censor.  Recorded, not asserted: reported as a defect of the pinned tree.
+    try:
+        _, sd = metrics.pit(np.array([1.0]), np.array([[1.0, 2.0]]), censor=np.float32(1.0))
+        if not bool(sd[0]):
+            note("pit_pseudo_flag_missed_with_float32_threshold",
+                 {"call": "metrics.pit", "obs": [1.0], "ens": [[1.0, 2.0]], "censor": "numpy.float32(1.0)",
+                  "flags": [bool(sd[0])], "expected": [True]})
+    except TOLERATED:
+        pass
+
+    # --------------------------------------------------------------
+    # 6.3 uniformity statistics: representations
+    UNIT_KINDS = [k for k in VEC_KINDS if k not in ("int64", "int32", "int16", "bool")]
+    for it in range(ctx.scale(120, 1200)):
+        n = rng.choice([1, 2, 3, 5, 10, rng.randint(1, 40), rng.randint(1, 150)])
+        x, skind = gen_unit_sample(n)
+        k = rng.choice(UNIT_KINDS + (["scalar", "0-d"] if n == 1 else []))
+        if k == "scalar":
+            r = (float(x[0]), list(x))
+        elif k == "0-d":
+            r = (np.array(x[0]), list(x))
+        else:
+            r = vec_repr(rng, x, k)
+        if r is None or not finite_unit(r[1]):
+            continue
+        obj, held = r
+        ctx.count(("repr-unif", k.split(":")[0], min(n, 4)))
+        nd = is_ndarray(obj) and obj.ndim == 1
+        if nd or k.startswith("series:"):
+            replay = {"call": "metrics.cramer_von_mises_test", "data": held, "held_as": k,
+                      "input_class": "stored representation"}
+            cm.mark(replay)
+            try:
+                stat, p = quiet(metrics.cramer_von_mises_test, obj)
+                stat, p = float(stat), float(p)
+            except TOLERATED as e:
+                if nd:
+                    fail(None, "C10/cvm/valid-sample-rejected", f"cramer_von_mises_test raised {type(e).__name__}: "
+                         f"{str(e)[:120]} on {n} values in (0,1) held as {k}", replay)
+                else:
+                    note("cvm_raises_on_containers", dict(replay, error=f"{type(e).__name__}: {str(e)[:120]}"))
+                stat = None
+            if stat is not None:
+                replay.update(stat=stat, pvalue=p)
+                want = cvm_exact(held)
+                if not abs(Fr(stat) - want) <= Fr(1, 10 ** 9) * max(1, want):
+                    fail(None, "C10/cvm/statistic", f"CvM statistic {stat!r}, textbook formula {float(want)!r} "
+                         f"(n={n}, sample held as {k})", replay)
+                if not (0.0 <= p <= 1.0):
+                    fail(None, "C10/cvm/pvalue-out-of-range", f"CvM p-value {p!r} (n={n}, sample held as {k})", replay)
+        replay = {"call": "metrics.anderson_darling_test", "data": held, "held_as": k,
+                  "input_class": "stored representation"}
+        cm.mark(replay)
+        try:
+            a, pa = quiet(metrics.anderson_darling_test, obj)
+            a, pa = float(a), float(pa)
+        except TOLERATED as e:
+            if nd:
+                fail(None, "C10/ad/valid-sample-rejected", f"anderson_darling_test raised {type(e).__name__}: "
+                     f"{str(e)[:120]} on {n} values in (0,1) held as {k}", replay)
+            else:
+                note("ad_raises_on_containers", dict(replay, error=f"{type(e).__name__}: {str(e)[:120]}"))
+            continue
+        replay.update(stat=a, pvalue=pa)
+        wanta = ad_textbook(held)
+        if not abs(a - wanta) <= 1e-9 * max(1.0, abs(wanta)):
+            fail(None, "C10/ad/statistic", f"AD statistic {a!r}, textbook formula {wanta!r} (n={n}, sample held "
+                 f"as {k})", replay)
+        if not (0.0 <= pa <= 1.0):
+            fail(None, "C10/ad/pvalue-out-of-range", f"AD p-value {pa!r} (n={n}, sample held as {k})", replay)
+
+    # --------------------------------------------------------------
+    # 6.4 ensrank: output arrays that are not fresh zeros (any content, used before, twice)
+    for it in range(ctx.scale(60, 600)):
+        n = rng.choice([1, 2, 3, 4, rng.randint(2, 8)])
+        m = rng.choice([1, 2, 3, rng.randint(1, 6)])
+        fmat_out = np.array([[rng.choice([0.0, -3.0, 7.5, float("nan"), 1e300]) for _ in range(n)] for _ in range(n)])
+        ranks_out = np.array([rng.choice([0.0, 1.0, -2.0, float("nan"), 55.0]) for _ in range(n)])
+        hist = []
+        for rep in range(rng.choice([1, 2, 3])):
+            sim, mode = gen_ensembles(rng, n, m)
+            eps = rng.choice([1e-6, 1e-8, 1e-4])
+            holder = rng.choice(["fresh", "offset", "readonly"])
+            sobj = mat_repr(rng, sim, holder)[0] if holder != "fresh" else np.array(sim, dtype=np.float64)
+            hist.append({"eps": eps, "sim": sim, "sim_held_as": holder})
+            replay = {"call": "c_hydrodiy_stat.ensrank", "calls_on_the_same_output_arrays": list(hist),
+                      "output_arrays": "not zero before the first call",
+                      "input_class": "output arrays with earlier content"}
+            cm.mark(replay)
+            ctx.count(("ensrank-dirty-outputs", min(n, 3), min(m, 3), rep, holder))
+            try:
+                code = int(c_hydrodiy_stat.ensrank(float(eps), sobj, fmat_out, ranks_out))
+            except TOLERATED as e:
+                fail(None, "C10/ensrank/valid-input-rejected", f"ensrank raised {type(e).__name__}: {str(e)[:120]} "
+                     f"(forecasts held as {holder})", replay)
+                break
+            if code != 0:
+                fail(None, "C10/ensrank/valid-input-rejected", f"ensrank returned {code} for eps={eps}, {n}x{m}", replay)
+                break
+            F, wr = wm_ranks(sim)
+            got = [float(v) for v in ranks_out]
+            if any(math.isnan(a) or Fr(a) != b for a, b in zip(got, wr)):
+                fail(None, "C10/ensrank/ranks-not-weigel-mason",
+                     f"ranks={got}, Weigel-Mason ranks={[float(v) for v in wr]} when the output arrays held other "
+                     f"values before the call (call {rep + 1} on the same arrays, sim={sim})",
+                     dict(replay, ranks=got))
+                break
+            badf = [(i, j) for i in range(n) for j in range(i + 1, n)
+                    if math.isnan(float(fmat_out[i, j])) or abs(Fr(float(fmat_out[i, j])) - F[(i, j)]) > Fr(1, 10 ** 9)]
+            if badf:
+                i, j = badf[0]
+                fail(None, "C10/ensrank/fmat-not-midrank",
+                     f"fmat[{i},{j}]={float(fmat_out[i, j])!r}, pairwise mid-rank comparison gives "
+                     f"{float(F[(i, j)])!r} when the output arrays held other values before the call "
+                     f"(call {rep + 1} on the same arrays)", replay)
+                break
+
+    # --------------------------------------------------------------
+    # 6.5 histories: caller-owned arrays through sequences of calls.  Every call is judged against
+    # the values the caller has written (tracked here, never read back from the arrays); every array
+    # RETURNED by the library must keep the values it was returned with, whatever is called later.
+    def run_dscore_session(sid):
+        n = rng.choice([2, 3, 4, 5, rng.randint(2, 8)])
+        m = rng.choice([1, 2, 3, rng.randint(1, 6)])
+        O, S = np.zeros(n), np.zeros((n, m))
+        cur = {}
+        hist = []
+
+        def write_obs(vals, op):
+            O[...] = vals
+            cur["obs"] = [float(v) for v in vals]
+            hist.append({"op": op, "obs": cur["obs"]})
+
+        def write_sim(rows, op):
+            S[...] = rows
+            cur["sim"] = [[float(v) for v in r] for r in rows]
+            hist.append({"op": op, "sim": cur["sim"]})
+
+        def new_obs():
+            return [k * 0.25 for k in rng.sample(range(-40, 40), n)]
+
+        def new_sim():
+            if m == 1:
+                return [[k * 0.5] for k in rng.sample(range(-50, 50), n)]
+            return gen_ensembles(rng, n, m)[0]
+
+        def call(oobj, sobj, obs, sim, op):
+            eps = rng.choice([1e-6, 1e-6, 1e-8])
+            hist.append({"op": op, "eps": eps})
+            replay = {"call": "metrics.dscore", "history_on_the_same_arrays": list(hist), "obs": obs, "sim": sim,
+                      "eps": eps, "input_class": "object history"}
+            cm.mark(replay)
+            ctx.count(("history-dscore", op, min(n, 3), min(m, 2)))
+            try:
+                d = float(quiet(metrics.dscore, oobj, sobj, eps=eps))
+            except TOLERATED as e:
+                fail(None, "C10/dscore/valid-input-rejected", f"dscore raised {type(e).__name__}: {str(e)[:120]} "
+                     f"at step {len(hist)} ({op}) of a sequence of calls on the same arrays", replay)
+                return False
+            hist[-1]["D"] = d
+            bad = judge_dscore(d, obs, sim)
+            if bad:
+                fail(None, "C10/dscore/depends-on-call-history",
+                     f"{bad[1]} at step {len(hist)} ({op}) of a sequence of calls and in-place updates on the same "
+                     f"arrays ({bad[0]}; current obs={obs}, sim={sim})", dict(replay, D=d))
+                return False
+            return True
+
+        write_obs(new_obs(), "write-obs")
+        write_sim(new_sim(), "write-sim")
+        if not call(O, S, cur["obs"], cur["sim"], "call"):
+            return
+        for step in range(rng.randint(3, 9)):
+            op = rng.choice(["call", "write-obs", "reverse-obs", "swap-two-obs", "write-sim", "map-sim", "other-sim",
+                             "other-obs", "views", "obs-as-forecast", "shuffle-members"])
+            if op == "write-obs":
+                write_obs(new_obs(), op)
+            elif op == "reverse-obs":
+                write_obs(cur["obs"][::-1], op)
+            elif op == "swap-two-obs":
+                v = list(cur["obs"])
+                i, j = rng.sample(range(n), 2)
+                v[i], v[j] = v[j], v[i]
+                write_obs(v, op)
+            elif op == "write-sim":
+                write_sim(new_sim(), op)
+            elif op == "map-sim":
+                name = rng.choice(sorted(MAPS))
+                try:
+                    rows = [[MAPS[name](v) for v in r] for r in cur["sim"]]
+                except OverflowError:
+                    continue
+                flat = [v for r in rows for v in r]
+                if not all(math.isfinite(v) for v in flat) or not separated(flat, 1e-4) or \
+                        len(set(flat)) != len(set(v for r in cur["sim"] for v in r)):
+                    continue
+                write_sim(rows, op + ":" + name)
+            elif op == "shuffle-members":
+                rows = [rng.sample(r, len(r)) for r in cur["sim"]]
+                write_sim(rows, op)
+            elif op == "other-sim":
+                rows = new_sim()
+                if not call(O, np.array(rows, dtype=np.float64), cur["obs"], rows, op):
+                    return
+                continue
+            elif op == "other-obs":
+                vals = new_obs()
+                if not call(np.array(vals), S, vals, cur["sim"], op):
+                    return
+                continue
+            elif op == "views":
+                if not call(O[::-1], S[::-1], cur["obs"][::-1], cur["sim"][::-1], op):
+                    return
+                continue
+            elif op == "obs-as-forecast":
+                if not call(O, O.reshape(n, 1), cur["obs"], [[v] for v in cur["obs"]], op):
+                    return
+                continue
+            if not call(O, S, cur["obs"], cur["sim"], "call-after-" + op if op != "call" else "call"):
+                return
+
+    for sid in range(ctx.scale(50, 500)):
+        run_dscore_session(sid)
+
+    def run_pit_session(sid):
+        n = rng.choice([2, 3, 4, rng.randint(2, 8)])
+        m = rng.choice([1, 2, 3, 11, rng.randint(2, 12)])
+        O, E = np.zeros(n), np.zeros((n, m))
+        cur = {"censor": 0.0}
+        hist = []
+        held = []            # (array returned by the library, copy at return time, text)
+        lad = PitLadder()
+
+        def write(op):
+            cur["censor"] = rng.choice([0.0, 0.0, 1.0, -2.5, 0.5])
+            obs, ens = gen_pit_values(n, m, cur["censor"])
+            if op != "write-ens":
+                O[...] = obs
+                cur["obs"] = obs
+            if op != "write-obs" or "ens" not in cur:
+                E[...] = ens
+                cur["ens"] = ens
+            hist.append({"op": op, "obs": list(cur["obs"]), "ens": [list(r) for r in cur["ens"]]})
+
+        def results_kept(op):
+            for arr, snap, text in held:
+                same = arr.shape == snap.shape and bool(np.all((arr == snap) | ((arr != arr) & (snap != snap))))
+                if not same:
+                    fail(None, "C10/sequence/result-changed-by-later-call",
+                         f"{text} was returned as {snap.tolist()} and holds {arr.tolist()} after step {len(hist)} "
+                         f"({op}) of the sequence: the values no longer belong to their forecasts",
+                         {"history_on_the_same_arrays": list(hist), "returned": snap.tolist(),
+                          "now": arr.tolist(), "input_class": "object history"})
+                    return False
+            return True
+
+        write("write-both")
+        for step in range(rng.randint(4, 11)):
+            op = rng.choice(["pit", "pit", "pit-random", "pit-random", "alpha", "uniformity", "uniformity",
+                             "write-obs", "write-ens", "write-both", "pit-views"])
+            if op.startswith("write"):
+                write(op)
+                if not results_kept(op):
+                    return
+                continue
+            ctx.count(("history-pit", op, min(n, 3), min(m, 3)))
+            obs, ens, censor = cur["obs"], cur["ens"], cur["censor"]
+            if op in ("pit", "pit-random", "pit-views"):
+                random = op == "pit-random" or (op == "pit-views" and rng.random() < 0.5)
+                cst = rng.choice([0.3, 0.0, 0.25, 0.5])
+                oo, ee = (O[::-1], E[::-1]) if op == "pit-views" else (O, E)
+                vo, ve = (obs[::-1], ens[::-1]) if op == "pit-views" else (obs, ens)
+                hist.append({"op": op, "random": random, "cst": cst, "censor": censor})
+                replay = {"call": "metrics.pit", "history_on_the_same_arrays": list(hist), "obs": vo, "ens": ve,
+                          "random": random, "cst": cst, "censor": censor, "input_class": "object history"}
+                cm.mark(replay)
+                try:
+                    pits, sudo = quiet(metrics.pit, oo, ee, random=random, cst=cst, censor=censor)
+                except TOLERATED as e:
+                    fail(None, "C10/pit/valid-input-rejected", f"pit raised {type(e).__name__}: {str(e)[:120]} at "
+                         f"step {len(hist)} of a sequence of calls on the same arrays", replay)
+                    return
+                out = ([float(v) for v in pits], [bool(b) for b in sudo])
+                hist[-1]["result"] = out
+                bad = pit_clauses(vo, ve, censor, random, cst, out, lad)
+                if bad:
+                    fail(None, "C10/pit/" + bad[0], f"{bad[1]} - at step {len(hist)} ({op}) of a sequence of calls "
+                         "and in-place updates on the same arrays", dict(replay, result=out))
+                    return
+                if type(pits) is np.ndarray and type(sudo) is np.ndarray:
+                    held.append((pits, np.array(pits, copy=True), f"the PIT array of step {len(hist)}"))
+                    held.append((sudo, np.array(sudo, copy=True), f"the pseudo flags of step {len(hist)}"))
+            elif op == "alpha":
+                typ = rng.choice(["CV", "KS", "AD"])
+                hist.append({"op": op, "type": typ})
+                replay = {"call": "metrics.alpha", "history_on_the_same_arrays": list(hist), "obs": obs, "ens": ens,
+                          "type": typ, "input_class": "object history"}
+                cm.mark(replay)
+                try:
+                    st, pv, sudo = quiet(metrics.alpha, O, E, type=typ)
+                except TOLERATED as e:
+                    fail(None, f"C10/alpha/{typ}-raised", f"alpha(type={typ}) raised {type(e).__name__}: "
+                         f"{str(e)[:120]} at step {len(hist)} of a sequence of calls on the same arrays", replay)
+                    return
+                pv, flags = float(pv), [bool(b) for b in sudo]
+                hist[-1]["result"] = [pv, flags]
+                if not (0.0 <= pv <= 1.0):
+                    fail(None, f"C10/alpha/{typ}-pvalue-out-of-range", f"alpha(type={typ}) p-value {pv!r} at step "
+                         f"{len(hist)} of a sequence of calls on the same arrays", replay)
+                    return
+                want = [(o <= 0.0) and any(v <= 0.0 for v in row) for o, row in zip(obs, ens)]
+                if flags != want:
+                    fail(None, "C10/alpha/pseudo-flag",
+                         f"alpha returns the pseudo flags {flags}, but the observation and at least one member are "
+                         f"at or below 0 for {want} (step {len(hist)} of a sequence of calls on the same arrays)",
+                         replay)
+                    return
+                if type(sudo) is np.ndarray:
+                    held.append((sudo, np.array(sudo, copy=True), f"the pseudo flags of step {len(hist)} (alpha)"))
+            else:
+                # the uniformity statistics of a PIT array returned earlier, passed as it is
+                cands = [(arr, snap, text) for arr, snap, text in held
+                         if snap.dtype.kind == "f" and finite_unit(snap.tolist())]
+                if not cands:
+                    continue
+                arr, snap, text = rng.choice(cands)
+                vals = [float(v) for v in snap]
+                which = rng.choice(["cvm", "ad", "ad"])
+                hist.append({"op": which + " of " + text})
+                replay = {"call": "metrics." + ("cramer_von_mises_test" if which == "cvm" else
+                                                "anderson_darling_test"),
+                          "history_on_the_same_arrays": list(hist), "data": vals, "input_class": "object history"}
+                cm.mark(replay)
+                try:
+                    if which == "cvm":
+                        stat, p = quiet(metrics.cramer_von_mises_test, arr)
+                        want = float(cvm_exact(vals))
+                    else:
+                        stat, p = quiet(metrics.anderson_darling_test, arr)
+                        want = ad_textbook(vals)
+                    stat, p = float(stat), float(p)
+                except TOLERATED as e:
+                    fail(None, f"C10/{which}/valid-sample-rejected", f"{replay['call']} raised {type(e).__name__}: "
+                         f"{str(e)[:120]} on {text} ({len(vals)} values in (0,1))", replay)
+                    return
+                if not abs(stat - want) <= 1e-9 * max(1.0, abs(want)):
+                    fail(None, f"C10/{which}/statistic", f"{which} statistic {stat!r}, textbook formula {want!r} on "
+                         f"{text}", dict(replay, stat=stat))
+                    return
+                if not (0.0 <= p <= 1.0):
+                    fail(None, f"C10/{which}/pvalue-out-of-range", f"{which} p-value {p!r} on {text}", replay)
+                    return
+            if not results_kept(op):
+                return
+
+    for sid in range(ctx.scale(60, 600)):
+        run_pit_session(sid)
+
+
 def run(ctx):
     ctx.rule = (
         "one PRNG; ensrank/dscore: n 1..12 forecasts x m 1..8 members (thorough n..30, m..24) on lattices "
@@ -242,7 +1033,16 @@ def run(ctx):
         "pit: 1..8 rows x 1..24 members, random False/True with recorded jitter, cst in [0,0.5] (and above the cap), "
         "censor thresholds with members at/below/above, NaN rows; CvM/AD: samples of 1..400 values in (0,1) "
         "(uniform, beta-like, regular grids, clustered, duplicates, shuffled), rejection of values outside [0,1] / NaN; "
-        "alpha CV/KS/AD; non-trivial = distinct (kind, size class, branch) signature")
+        "alpha CV/KS/AD; stored representations of the same values for dscore / pit / alpha / CvM / AD (float16/32, "
+        "long double, big-endian, int, bool, object dtypes; strided, negative-stride, offset, column, Fortran-order, "
+        "transposed, read-only arrays; masked arrays, lists, tuples, 0-d arrays and scalars, Series / DataFrames with "
+        "date (tz, unit s) / text / shuffled / duplicate / float indexes; eps / cst / censor as int, numpy.float64, "
+        "0-d array): the score, PIT clauses and textbook statistics on the values held; ensrank with output arrays "
+        "holding earlier content / used two or three times; histories of 4..12 steps on caller-owned arrays "
+        "(calls in any order / twice / through reversed views / the observations as single-member forecasts, in-place "
+        "rewrites between calls, returned PIT arrays passed on to the uniformity tests): every call judged on the "
+        "values written, every returned array keeps its values; "
+        "non-trivial = distinct (kind, size class, branch) signature")
     ctx.trusted = cm.STD_TRUST + [
         "glibc qsort is a stable merge sort (c_dscore.c relies on it); modelled as a stable insertion sort, "
         "identical on inputs for which the tolerance comparator is a total preorder (the property's hypothesis)",
@@ -841,6 +1641,10 @@ def run(ctx):
             if not (0.0 <= pv <= 1.0):
                 fail(idx, f"C10/alpha/{typ}-pvalue-out-of-range",
                      f"alpha(type={typ}) p-value {pv!r} (statistic {st!r}, {n} forecasts x {m} members)", replay)
+
+    # ------------------------------------------------------------------
+    # 6. stored representations of the inputs and histories of caller-owned objects
+    representation_and_history_checks(ctx, metrics, c_hydrodiy_stat, fail, gen_unit_sample)
 
     # ------------------------------------------------------------------
     bad, nshards, failed = cm.run_case_files(PID, HEADER, "dcase", "d_ok", terms, shard=60, max_bytes=200000)
